@@ -224,14 +224,81 @@ class ResultEdges:
         self.inspected = bool(self.switches)
 
     def ok_dominates(self, b):
-        """some success edge dominates block b"""
-        return any(self.body.edge_dominates(e, b) for e in self.ok)
+        """every feasible path entry -> b crosses a success edge (path-sensitive for re-wrapped results)"""
+        if any(self.body.edge_dominates(e, b) for e in self.ok):
+            return True
+        return b not in refined_reach(self.body, [0], blocked_edges=self.ok)
+
+    def err_dominates(self, b):
+        if any(self.body.edge_dominates(e, b) for e in self.err):
+            return True
+        return b not in refined_reach(self.body, [0], blocked_edges=self.err)
 
     def reachable_from_err(self):
         out = set()
         for (_a, s) in self.err:
-            out |= self.body.reachable_from([s])
+            out |= refined_reach(self.body, [s])
         return out
+
+
+def refined_reach(body, starts, blocked_edges=()):
+    """Blocks reachable from `starts`, following only feasible edges at switches over Result / ControlFlow values whose
+    variant is known on the path: `L = Result::Ok{..}` / `Err{..}` fixes L's variant, `X = Try::branch(L)` carries it over
+    (Continue for Ok, Break for Err), `d = discriminant(X)` fixes d.  Facts are merged at joins by agreement."""
+    blocked = set(blocked_edges)
+    states = {}
+    work = [(s, {}) for s in starts]
+    guard = 0
+    while work:
+        guard += 1
+        if guard > 40 * max(1, len(body.blocks)):
+            return set(body.reachable_from(starts))
+        b, st = work.pop()
+        old = states.get(b)
+        if old is not None:
+            merged = {k: v for k, v in old.items() if st.get(k) == v}
+            if merged == old:
+                continue
+            st = merged
+        states[b] = dict(st)
+        st = dict(st)
+        blk = body.blocks[b]
+        for s in blk['s']:
+            if s['k'] != 'assign' or s['lhs']['p']:
+                continue
+            dst, rv = s['lhs']['l'], s['rv']
+            st.pop(dst, None)
+            if rv['k'] == 'aggregate' and rv.get('agg') == 'adt' and strip_generics(rv['adt']) in ('core::result::Result', 'core::ops::control_flow::ControlFlow'):
+                st[dst] = 0 if rv['vname'] in ('Ok', 'Continue') else 1
+            elif rv['k'] == 'use':
+                pl = op_place(rv['op'])
+                if pl and not pl['p'] and pl['l'] in st:
+                    st[dst] = st[pl['l']]
+            elif rv['k'] == 'discr' and not rv['pl']['p'] and rv['pl']['l'] in st:
+                st[dst] = ('d', st[rv['pl']['l']])
+        t = blk['t']
+        succs = list(body.succ(b))
+        if t['k'] == 'call' and not t['dest']['p']:
+            d = t['dest']['l']
+            st.pop(d, None)
+            if cname(t) == 'core::ops::try_trait::Try::branch' and t['args']:
+                l = op_local(t['args'][0])
+                if l in st and st[l] in (0, 1):
+                    st[d] = st[l]
+        elif t['k'] == 'switch':
+            l = op_local(t['discr'])
+            v = st.get(l) if l is not None else None
+            if isinstance(v, tuple) and v[0] == 'd':
+                tgt = t['otherwise']
+                for val, tb in t['targets']:
+                    if int(val) == v[1]:
+                        tgt = tb
+                succs = [tgt]
+        for s_ in succs:
+            if (b, s_) in blocked:
+                continue
+            work.append((s_, st))
+    return set(states)
 
 
 # ---------------------------------------------------------------------------
@@ -275,20 +342,39 @@ def closure_aggregates(body):
     return out
 
 
+def _return_locals(body):
+    """locals whose value is moved/copied (possibly through several temporaries) into the return place"""
+    out = {0}
+    changed = True
+    while changed:
+        changed = False
+        for _b, _j, s in body.assigns():
+            if s['lhs']['l'] in out and not s['lhs']['p'] and s['rv']['k'] == 'use':
+                pl = op_place(s['rv']['op'])
+                if pl and not pl['p'] and pl['l'] not in out:
+                    out.add(pl['l'])
+                    changed = True
+    return out
+
+
 def return_value_blocks(body):
-    """blocks assigning the return place _0: [(block, stmt-or-term)]"""
+    """blocks producing the value that is returned: [(block, stmt-or-term)] (assignments / calls whose destination
+    is the return place or a temporary that is moved into it)"""
+    rl = _return_locals(body)
     out = []
     for b, j, s in body.assigns():
-        if s['lhs']['l'] == 0 and not s['lhs']['p']:
+        if s['lhs']['l'] in rl and not s['lhs']['p']:
+            if s['rv']['k'] == 'use' and op_place(s['rv']['op']) and not op_place(s['rv']['op'])['p'] and op_place(s['rv']['op'])['l'] in rl:
+                continue   # a plain forwarding move between return temporaries
             out.append((b, s))
     for b, t in body.calls():
-        if t['dest']['l'] == 0 and not t['dest']['p']:
+        if t['dest']['l'] in rl and not t['dest']['p']:
             out.append((b, t))
     return out
 
 
 def ok_return_blocks(body):
-    """blocks where `_0 = Result::Ok(..)` is constructed"""
+    """blocks where the returned `Result::Ok(..)` is constructed"""
     out = []
     for b, s in return_value_blocks(body):
         rv = s.get('rv')
